@@ -55,7 +55,9 @@ fn dir(rng: &mut Rng, c: &Cfg, flavor: Flavor, budget_units: usize) -> DirSpec {
     let unit = mss.min(c.send_cap).min(c.recv_cap).max(1);
     let totals = [0usize, 1, 5, 40, 300, 3000, 20_000, 65_536];
     let mut total = rng.pick_copy(&totals);
-    let mut read_pause = if rng.chance(0.3) { rng.range(1, 2) as u32 } else { 0 };
+    // mostly prompt or slightly lagging readers; now and then one that does not
+    // read for many rounds (the window stays closed while traffic continues)
+    let mut read_pause = if rng.chance(0.3) { rng.pick_copy(&[1u32, 1, 1, 2, 2, 2, 5, 30]) } else { 0 };
     let nr = rng.range(1, 3) as usize;
     let rbufs = sizes(rng, mss, nr);
     let nw = rng.range(1, 3) as usize;
